@@ -1087,9 +1087,11 @@ fill = partial(_fill_at_blanks, width=line_length)""")]),
          """        try:
             lit = literal_eval(default)
         except (ValueError, SyntaxError):
-            if typ != "str":
-                raise
-            lit = default  # an unquoted string is not a Python literal: it is the value as it stands""", """        lit = literal_eval(default)""")]),
+            pass  # not a Python literal - an unquoted string, an expression: it is the value as it stands
+        else:
+            default = (""", """        lit = literal_eval(default)
+        if True:
+            default = (""")]),
     dict(id="ladder-bool-words-through-float", kind=B, props=["C17"], expect="TYPE-LADDER", edits=[("defaults_utils.py",
          """    elif default in frozenset(("True", "False")):
         default = literal_eval(default)
@@ -1151,4 +1153,15 @@ def extract_default(
          """            interpolate_defaults(param, emit_default_doc=emit_default_doc),
             infer_type=infer_type,""", """            interpolate_defaults(param, emit_default_doc=emit_default_doc, require_default=False),
             infer_type=infer_type,""")]),
+    # ------------------------------------------------------------------ QUOTE-TYPES (C01, C02, C06)
+    dict(id="quotetypes-numbers-raise-again", kind=B, props=["C02", "C06"], expect="QUOTE-TYPES", edits=[("pure_utils.py",
+         """    if isinstance(s, (int, float, complex)):
+        return s  # a number (or a bool) is written as it is: only strings are quoted
+""", "")]),
+    dict(id="quotetypes-type-membership", kind=N, props=["C02", "C06"], expect="silent", edits=[("pure_utils.py",
+         """    if isinstance(s, (int, float, complex)):
+        return s  # a number (or a bool) is written as it is: only strings are quoted
+""", """    if type(s) in (bool, int, float, complex) or isinstance(s, (int, float, complex)):
+        return s
+""")]),
 ]
